@@ -2022,11 +2022,13 @@ func (t *tScreen) HasKey(k Key) bool {
 }
 
 func (t *tScreen) SetSize(w, h int) {
+	t.Lock()
 	if t.setWinSize != "" {
 		t.TPuts(t.ti.TParm(t.setWinSize, w, h))
 	}
 	t.cells.Invalidate()
 	t.resize()
+	t.Unlock()
 }
 
 func (t *tScreen) Resize(int, int, int, int) {}
